@@ -35,7 +35,7 @@ export VERIF_BUILD="$BUILD"
 build_to() { # out, dir, args...
   local out="$1" dir="$2"; shift 2
   local tmp="$BUILD/.tmp.$$.$(basename "$out")"
-  if ! (cd "$dir" && go build "$@" -o "$tmp" 2>"$tmp.log"); then
+  if ! (cd "$dir" && go build -o "$tmp" "$@" 2>"$tmp.log"); then
     echo "BUILD-FAILED $(basename "$out"):" >&2; cat "$tmp.log" >&2; rm -f "$tmp" "$tmp.log"; return 1
   fi
   rm -f "$tmp.log"; mv -f "$tmp" "$out"
